@@ -57,6 +57,8 @@ var behaviours = []behaviour{
 	{"Error(typed-nil)", true, func(t *f1testing.T) { var e *nilErr; t.Error(e) }},
 	{"Require.NoError", true, func(t *f1testing.T) { t.Require().NoError(errors.New("e")) }},
 	{"FailNow-in-timed-stage", true, func(t *f1testing.T) { t.Time("stage", func() { t.FailNow() }) }},
+	{"panic(string)-in-timed-stage", true, func(t *f1testing.T) { t.Time("stage", func() { panic("boom") }) }},
+	{"runtime-error-in-timed-stage", true, func(t *f1testing.T) { t.Time("stage", func() { var m map[string]int; m["x"] = 1 }) }},
 	{"Log+Logf+timed-stage", false, func(t *f1testing.T) { t.Log("x", 1); t.Logf("%d", 1); t.Time("stage", func() {}) }},
 }
 
